@@ -61,6 +61,10 @@ CHECKS = {
    text="Recorded well-formed client streams are delivered up to any byte, mutated frame-wise, extended with frame soup, with the peer not reading or the server's writes failing from any octet, ended by EOF or reset, with handlers released before or after the disconnect. Checked: no panic in the server's log (recovered ones count) and no process death (crash journal), ServeConn returns within 6 s of the peer being gone, only harness-held handler goroutines of that connection remain (none after release), no RequestCtx is returned to its pool while its handler is inside, no double release. Exploration (random cut points and mutations, not every offset of every recording).",
    note="Trusted: goroutine dumps filtered by the connection object's address (hook), pool observer, captured logger.",
    ref="6.2 C17"),
+ "C02": dict(technique="model-based property testing (rapid) of the client through its public RoundTrip API against a scripted in-memory TLS server with an independent HPACK/frame codec; generated request sets, response encodings/fragmentations/interleavings; quiescence from hook counters plus goroutine states",
+   text="Generated sets of concurrent requests (all body shapes) go through ConfigureClient/RoundTrip to a scripted server that checks what arrives (stream ids, pseudo-headers, field multiset minus connection-specific fields, body, END_STREAM) and answers each stream with a generated, tagged response whose header block is cut at arbitrary octets and whose frames are interleaved with other streams'; every caller must get exactly its own response. Exploration only; the client's internal schedules are sampled (lock-step and burst).",
+   note="Trusted: scripted server (x/net Framer + reference HPACK), fasthttp containers (cookie merging, URI re-encoding are excluded from the comparison), hook counters.",
+   ref="6.2 C02"),
 }
 PENDING = {}  # id -> reason, for properties not claimed (yet)
 
